@@ -600,6 +600,19 @@ def act_failure_shape(step):
                                                      _actor_name=Str, _phase_source=Str))
 
 
+def at_stage(self, stage):
+    """what the executor has set up when a step of that stage may run (the state the step's contract is proved
+    for; proved at every call of the step)"""
+    if stage == 'initial':
+        return True
+    ok = self._action_to_check is not None and self._instruction_environment_pre_sds is not None
+    if stage in ('post-sds', 'act'):
+        ok = ok and self._sds is not None and self._phase_tmp_space_factory is not None
+    if stage == 'act':
+        ok = ok and self._act_phase_executor is not None
+    return ok
+
+
 def result_state(self):
     """the state of the executor that the final result is built from"""
     return self._sds, self._action_to_check_outcome
@@ -621,13 +634,13 @@ INSTRUCTION_STEPS = {
                                    'pre-sds'),
     '_setup__main': (S.SETUP__MAIN, psx.SetupMainExecutor, 'setup_phase', 'post-sds'),
     '_setup__validate_post_setup': (S.SETUP__VALIDATE_POST_SETUP, psx.SetupValidatePostSetupExecutor, 'setup_phase',
-                                    'act'),
+                                    'post-sds'),
     '_before_assert__validate_post_setup': (S.BEFORE_ASSERT__VALIDATE_POST_SETUP,
-                                            psx.BeforeAssertValidatePostSetupExecutor, 'before_assert_phase', 'act'),
+                                            psx.BeforeAssertValidatePostSetupExecutor, 'before_assert_phase', 'post-sds'),
     '_assert__validate_post_setup': (S.ASSERT__VALIDATE_POST_SETUP, psx.AssertValidatePostSetupExecutor,
-                                     'assert_phase', 'act'),
-    '_before_assert__main': (S.BEFORE_ASSERT__MAIN, psx.BeforeAssertMainExecutor, 'before_assert_phase', 'act'),
-    '_assert__main': (S.ASSERT__MAIN, psx.AssertMainExecutor, 'assert_phase', 'act'),
+                                     'assert_phase', 'post-sds'),
+    '_before_assert__main': (S.BEFORE_ASSERT__MAIN, psx.BeforeAssertMainExecutor, 'before_assert_phase', 'post-sds'),
+    '_assert__main': (S.ASSERT__MAIN, psx.AssertMainExecutor, 'assert_phase', 'post-sds'),
     '_cleanup_main': (S.CLEANUP__MAIN, psx.CleanupMainExecutor, 'cleanup_phase', 'post-sds'),
 }
 
@@ -658,6 +671,7 @@ def _instruction_step_contract(method, step, executor_class, phase_attr, stage):
         ensures['cleanup instructions are told the previous phase'] = lambda previous_phase, trace: \
             run_steps(trace)[0][1]['instruction_executor']._previous_phase is previous_phase
     M.contract('%s:_PartialExecutor.%s' % (P_EX, method), params=params, event=method,
+               requires=lambda self: at_stage(self, stage),
                old=lambda self: result_state(self),
                ensures=ensures,
                raises={PhaseStepFailureException: {
@@ -782,6 +796,7 @@ def failure_kind_of_call(trace, event, kind_of_result):
 
 def _atc_step_contract(method, step, event, kind_of_result, stage):
     M.contract('%s:_PartialExecutor.%s' % (P_EX, method), params=dict(self=_mk_partial_executor(stage)),
+               requires=lambda self: at_stage(self, stage),
                event=method, old=lambda self: result_state(self),
                ensures={
                    'calls the method of the action to check once; it succeeded': lambda self, trace:
@@ -804,6 +819,7 @@ for _m, (_step, _event, _kind, _stage) in ATC_STEPS.items():
     _atc_step_contract(_m, _step, _event, _kind, _stage)
 
 M.contract(P_EX + ':_PartialExecutor._act__execute', params=dict(self=_mk_partial_executor('act')),
+           requires=lambda self: at_stage(self, 'act'),
            event='_act__execute', old=lambda self: result_state(self), returns=Const(None),
            modifies={'self._act_phase_executor._atc_outcome': Opt(ATC_OUTCOME)},
            ensures={
@@ -837,6 +853,7 @@ def _new_atc_executor(interp, name, env):
 
 M.contract(P_EX + ':_PartialExecutor._construct_and_set_act_phase_executor',
            params=dict(self=_mk_partial_executor('post-sds')), old=lambda self: result_state(self),
+           requires=lambda self: at_stage(self, 'post-sds'),
            modifies={'self._act_phase_executor': Dependent(_new_atc_executor)},
            ensures={
                'a fresh executor of the parsed action to check, without outcome': lambda self:
@@ -865,6 +882,7 @@ M.contract(P_EX + ':_PartialExecutor._setup_pre_sds_environment',
 # exists afterwards.  OSError: the file system may refuse.
 M.contract(P_EX + ':_PartialExecutor._setup_post_sds_environment', trusted=True,
            params=dict(self=_mk_partial_executor('pre-sds')), event=SDS,
+           requires=lambda self: at_stage(self, 'pre-sds'),
            modifies={'self._PartialExecutor__sandbox_directory_structure': Iface(SdsI),
                      'self._phase_tmp_space_factory': Iface(TmpSpaceFactoryI),
                      'self._PartialExecutor__post_sds_symbol_table': Iface(SymbolTableI)},
@@ -1515,3 +1533,13 @@ M.contract(P_FEX + ':execute',
            },
            raises={OSError: {'ensures': lambda trace: trace[-1][0] == 'partial-execution:raised'}},
            raises_only=())
+
+# shared with C02 (its contracts, reused: the translation of the partial outcome is part of "never a success
+# when an executed step failed")
+from contracts import C02_outcome as _c02
+
+for _c in _c02.M.contracts:
+    if _c.qname in ('exactly_lib.execution.full_execution.result:translate_status',
+                    'exactly_lib.execution.full_execution.result:new_from_result_of_partial_execution',
+                    'exactly_lib.execution.full_execution.result:new_skipped'):
+        _c.props = tuple(sorted(set(_c.props) | {'C01'}))
